@@ -23,8 +23,12 @@ def gen(rng, spec):
     r = rng.random()
     if r < 0.45:
         return search.gen_case(rng, nbest=rng.choice((2, 3, 5, 10)), max_n=5, sparse=True)
+    if r < 0.52:
+        return search.extreme_rows(rng, search.gen_case(rng, beam=True, max_n=5, family='softmax'))
     if r < 0.6:
         return search.gen_case(rng, beam=True, max_n=6)
+    if r < 0.72:
+        return search.gen_case(rng, max_n=5, many_cats=True, nbest=rng.choice((1, 1, 2)))
     if r < 0.7:
         return search.gen_case(rng, max_n=1)
     return search.gen_case(rng, max_n=6)
